@@ -372,12 +372,13 @@ class Out:
         self.lines = []
         self.names = set()
 
-    def emit(self, name, term, typ="R", comment=None):
+    def emit(self, name, term, typ="R", comment=None, order=None):
         if name in self.names:
             raise Unsupported("duplicate definition %s" % name)
         self.names.add(name)
         used = set(IDENT.findall(term))
-        binders = "".join(" (%s : %s)" % (p, t) for p, t in PARAMS if p in used)
+        plist = PARAMS if order is None else [(p, dict(PARAMS)[p]) for p in order]
+        binders = "".join(" (%s : %s)" % (p, t) for p, t in plist if p in used or order is not None)
         if comment:
             self.lines.append("(* %s *)" % comment)
         scope = "%Z" if typ in ("Z", "Z * Z") else ""
@@ -492,7 +493,7 @@ def tr_util(src, out):
         if not fn or [x.arg for x in fn[0].args.args] != [a, b]:
             raise Unsupported("util.%s signature" % fname)
         v = Ex({a: Rv("t"), b: Rv("rate")}).ev(single_return(fn[0]))
-        out.emit("src_" + fname, toR(v), "R", "util.%s (first argument is called t here)" % fname)
+        out.emit("src_" + fname, toR(v), "R", "util.%s (first argument is called t here)" % fname, order=["t", "rate"])
 
 
 DTYPE = {"np.complex128": "Complex128", "np.float64": "Float64"}
